@@ -29,12 +29,14 @@ Definition is_ok {A} (m : result A) : bool := match m with Ok _ => true | Exn _ 
 Definition len {A} (l : list A) : Z := Z.of_nat (length l).
 
 (* d[a:b] for non-negative a, b (clamps, never raises) *)
+(* counts are clamped to the list length before becoming a nat, so that a huge (attacker-chosen) bound never
+   turns into a huge unary number when the model is executed; PyLibP.slice_eq shows the clamp changes nothing *)
 Definition slice {A} (d : list A) (a b : Z) : list A :=
-  firstn (Z.to_nat (b - a)) (skipn (Z.to_nat a) d).
+  firstn (Z.to_nat (Z.min (b - a) (len d))) (skipn (Z.to_nat (Z.min a (len d))) d).
 (* d[a:] for non-negative a *)
-Definition slice_from {A} (d : list A) (a : Z) : list A := skipn (Z.to_nat a) d.
+Definition slice_from {A} (d : list A) (a : Z) : list A := skipn (Z.to_nat (Z.min a (len d))) d.
 (* d[:b] for non-negative b *)
-Definition slice_to {A} (d : list A) (b : Z) : list A := firstn (Z.to_nat b) d.
+Definition slice_to {A} (d : list A) (b : Z) : list A := firstn (Z.to_nat (Z.min b (len d))) d.
 (* d[:-n] for n >= 0.  Python: -0 == 0, so d[:-0] is the empty sequence. *)
 Definition slice_drop_last {A} (d : list A) (n : Z) : list A :=
   if n =? 0 then [] else firstn (Z.to_nat (len d - n)) d.
